@@ -261,9 +261,15 @@ pub(crate) fn is_farm_expired(
 
     let farm_ending_at = epoch_response.epoch.start_time;
 
+    // a farm can end so far in the future that adding the expiration time to its end no longer
+    // fits a timestamp; such a farm is not expired
+    let farm_expiring_at = farm_ending_at
+        .nanos()
+        .saturating_add(config.farm_expiration_time.saturating_mul(1_000_000_000u64));
+
     Ok(
         farm.farm_asset.amount.saturating_sub(farm.claimed_amount) == Uint128::zero()
-            || farm_ending_at.plus_seconds(config.farm_expiration_time) < env.block.time,
+            || farm_expiring_at < env.block.time.nanos(),
     )
 }
 
